@@ -364,6 +364,29 @@ func Harness_C06_profile() {
 	buf2 := bytes.NewBuffer(nil)
 	got.WriteTo(buf2)
 	zzverif.Assert("profile-reencode-identical", bytes.Equal(buf2.Bytes(), buf.Bytes()))
+	// a profile (and a table index) is stored under its TABLE's sum, not under the hash of
+	// its own bytes: a table can be profiled or indexed again (wrgl profile --refresh,
+	// reingest), and what was written last is what reads back
+	db := zz6NewStore()
+	sum := zzverif.Bytes("tableSum", 16)
+	zzverif.Assert("profile-saved", SaveTableProfile(db, sum, buf.Bytes()) == nil)
+	back, err := GetTableProfile(db, sum)
+	zzverif.Assert("profile-read-back", err == nil && back != nil && back.RowsCount == p.RowsCount && len(back.Columns) == 2 && back.Columns[0].NACount == a.NACount)
+	p.RowsCount++
+	p.Columns[0].NACount = zzverif.Uint32("na2")
+	buf3 := bytes.NewBuffer(nil)
+	p.WriteTo(buf3)
+	zzverif.Assert("profile-saved-again", SaveTableProfile(db, sum, buf3.Bytes()) == nil)
+	raw, err := db.Get(append([]byte("tblsum/"), sum...))
+	zzverif.Assert("profile-written-last-is-what-is-stored", err == nil && bytes.Equal(raw, buf3.Bytes()))
+	back, err = GetTableProfile(db, sum)
+	zzverif.Assert("profile-written-last-reads-back", err == nil && back != nil && back.RowsCount == p.RowsCount && len(back.Columns) == 2 && back.Columns[0].NACount == p.Columns[0].NACount)
+	enc := NewStrListEncoder(false)
+	idx1 := CombineRowBytesIntoBlock([][]byte{enc.Encode([]string{zzverif.String("k1", 1)})})
+	idx2 := CombineRowBytesIntoBlock([][]byte{enc.Encode([]string{zzverif.String("k2", 1)}), enc.Encode([]string{"z"})})
+	zzverif.Assert("table-index-saved", SaveTableIndex(db, sum, idx1) == nil && SaveTableIndex(db, sum, idx2) == nil)
+	ti, err := GetTableIndex(db, sum)
+	zzverif.Assert("table-index-written-last-reads-back", err == nil && len(ti) == 2)
 	zzverif.Reach("end")
 }
 
